@@ -46,14 +46,46 @@ theorem C13_token_aligned (tds : TokDiffList) :
   have := go_aligned tds 0 none [] [] [] (by intro _; simp [flat]) (by intro i d h; cases h) e he
   simpa using this
 
+/-! The same clauses for the whole pipeline after diff-match-patch (`ds` is its raw decoded output;
+`_split_at_separators` runs first): separator splitting preserves both texts. -/
+theorem C13_apply_raw (ds : DiffList) : applyEdits (src ds) (editsOfRaw ds) = dst ds := by
+  have := C13_apply (splitDiffs ds)
+  rwa [splitDiffs_src, splitDiffs_dst] at this
+
+theorem C13_disjoint_sorted_raw (ds : DiffList) : SortedFrom 0 (editsOfRaw ds) :=
+  C13_disjoint_sorted (splitDiffs ds)
+
+theorem C13_target_at_index_raw (ds : DiffList) : TargetsAt (src ds) (editsOfRaw ds) := by
+  have := C13_target_at_index (splitDiffs ds)
+  rwa [splitDiffs_src] at this
+
+theorem C13_equal_nil_raw (ds : DiffList) (h : ∀ d ∈ ds, d.1 = Op.eq) : editsOfRaw ds = [] := by
+  have hs : splitDiffs ds = ds := by
+    induction ds with
+    | nil => rfl
+    | cons x ds ih =>
+      obtain ⟨o, t⟩ := x
+      have ho : o = Op.eq := h (o, t) (by simp)
+      subst ho
+      have := ih (fun d hd => h d (by simp [hd]))
+      simp [splitDiffs, this]
+  unfold editsOfRaw
+  rw [hs]
+  exact C13_equal_nil ds h
+
+/-- the split: 'end.\n\nStart' → 'END.\n\nBEGIN' becomes one change per paragraph -/
+example : splitDiffs [(.eq, "The ".toList), (.del, "end.\n\nStart".toList), (.ins, "END.\n\nBEGIN".toList)] =
+    [(.eq, "The ".toList), (.del, "end".toList), (.ins, "END".toList), (.eq, ".".toList), (.eq, "\n\n".toList),
+     (.del, "Start".toList), (.ins, "BEGIN".toList)] := by decide +kernel
+
 /-! Non-vacuity: a concrete diff list meets the hypotheses and exercises every branch. -/
 def sample : DiffList :=
   [(.ins, "New ".toList), (.eq, "Hello big ".toList), (.del, "old ".toList),
    (.ins, "new ".toList), (.eq, "world".toList), (.ins, "!".toList), (.eq, " x ".toList),
    (.del, "go".toList), (.del, "ne".toList)]
 
-example : applyEdits (src sample) (editsOfDiffs sample) = dst sample := by decide
-example : (editsOfDiffs sample).length = 4 := by decide
+example : applyEdits (src sample) (editsOfDiffs sample) = dst sample := by decide +kernel
+example : (editsOfDiffs sample).length = 4 := by decide +kernel
 
 /-- The pinned tree (4fd4704) violated the property: `Hello world → Hello big world` produced an
 edit whose target is not at its index, and replacing the targets does not give the second text.
